@@ -1,0 +1,13 @@
+//go:build !verif
+
+package stackage
+
+import "sync"
+
+/*
+verifPoint is a no-op unless the package is built with the
+`verif` build tag (see verif_on.go). It marks the points at
+which a stack's lock is wanted, held, about to be released
+and released.
+*/
+func verifPoint(string, *stack, *sync.Mutex) {}
